@@ -78,6 +78,9 @@ class TimeoutExecutor(CanCustomizeBind, Executor):
 
         metrics.EXEC_TOTAL.labels(type="timeout", executor=self._name).inc()
         metrics.EXEC_INPROGRESS.labels(type="timeout", executor=self._name).inc()
+        self._shutdown.dec_when_dropped(
+            self, metrics.EXEC_INPROGRESS.labels(type="timeout", executor=self._name)
+        )
 
     def submit(self, *args, **kwargs):  # pylint: disable=arguments-differ
         return self.submit_timeout(self._timeout, *args, **kwargs)
